@@ -201,3 +201,121 @@ func (tb *dtTable) String() string {
 	}
 	return sb.String()
 }
+
+// ---- finite order models ------------------------------------------------------
+//
+// A decision table whose atoms are only comparisons between a few symbols
+// (and constants) is decided exactly by evaluating it on every assignment of
+// small integers to the symbols: the values are touched only through
+// comparisons, so a finite set of orderings covers all behaviours.
+
+// evalAtom evaluates a rendered atom "LT(a,b)" / "EQ(a,b)" / boolean symbol under env.
+func evalAtom(key string, env map[string]int) (bool, bool) {
+	if strings.HasPrefix(key, "LT(") || strings.HasPrefix(key, "EQ(") {
+		args := splitTop(key[3 : len(key)-1])
+		if len(args) != 2 {
+			return false, false
+		}
+		x, okx := evalSym(args[0], env)
+		y, oky := evalSym(args[1], env)
+		if !okx || !oky {
+			return false, false
+		}
+		if key[0] == 'L' {
+			return x < y, true
+		}
+		return x == y, true
+	}
+	v, ok := env[key]
+	return v != 0, ok
+}
+
+func evalSym(s string, env map[string]int) (int, bool) {
+	if strings.HasPrefix(s, "c:") {
+		var n int
+		if _, err := fmt.Sscanf(s[2:], "%d", &n); err == nil {
+			return n, true
+		}
+		return 0, false
+	}
+	v, ok := env[s]
+	return v, ok
+}
+
+// selectRow finds the rows whose facts all hold under env. unknown lists atoms that could not be evaluated.
+func (tb *dtTable) selectRows(env map[string]int) (rows []dtRow, unknown []string) {
+	for _, r := range tb.Rows {
+		ok := true
+		for k, want := range r.Facts {
+			got, known := evalAtom(k, env)
+			if !known {
+				unknown = append(unknown, k)
+				ok = false
+				break
+			}
+			if got != want {
+				ok = false
+				break
+			}
+		}
+		if ok {
+			rows = append(rows, r)
+		}
+	}
+	return
+}
+
+// checkOrderModel compares the table with a specification on every assignment
+// of values 0..max to the symbols. classify maps a row to a verdict string;
+// spec gives the expected verdict for an assignment ("" = unconstrained).
+func checkOrderModel(tb *dtTable, symbols []string, max int, classify func(dtRow) string, spec func(env map[string]int) string) []string {
+	var diffs []string
+	seen := map[string]bool{}
+	env := map[string]int{}
+	var rec func(i int)
+	rec = func(i int) {
+		if i == len(symbols) {
+			want := spec(env)
+			if want == "" {
+				return
+			}
+			rows, unknown := tb.selectRows(env)
+			if len(unknown) > 0 {
+				d := "a branch condition is not a comparison between the expected quantities: " + unknown[0]
+				if !seen[d] {
+					seen[d] = true
+					diffs = append(diffs, d)
+				}
+				return
+			}
+			for _, r := range rows {
+				got := classify(r)
+				if got != want {
+					var as []string
+					for _, s := range symbols {
+						as = append(as, fmt.Sprintf("%s=%d", s, env[s]))
+					}
+					d := fmt.Sprintf("for %s the code %ss, the rule requires %s", strings.Join(as, ","), got, want)
+					if !seen[got+want] {
+						seen[got+want] = true
+						diffs = append(diffs, d)
+					}
+				}
+			}
+			if len(rows) == 0 {
+				d := "no path of the function covers some ordering of its inputs"
+				if !seen[d] {
+					seen[d] = true
+					diffs = append(diffs, d)
+				}
+			}
+			return
+		}
+		for v := 0; v <= max; v++ {
+			env[symbols[i]] = v
+			rec(i + 1)
+		}
+	}
+	rec(0)
+	return diffs
+}
